@@ -1,5 +1,5 @@
 SPECIFICATION Spec
-CONSTANTS MaxPg=3 InitN=2 MaxVer=2 MaxFrames=4 MaxTx=5 MaxGen=4 MaxDown=1 FixF1=FALSE FixF2=FALSE FixG1=FALSE ReqCtx=TRUE FixQ1=FALSE FixQ2=FALSE
+CONSTANTS MaxPg=3 InitN=2 MaxVer=3 MaxFrames=4 MaxTx=5 MaxGen=4 MaxDown=1 FixF1=FALSE FixF2=FALSE FixG1=FALSE ReqCtx=FALSE FixQ1=FALSE FixQ2=FALSE FixM2=FALSE
   Modes={"PASSIVE","RESTART","TRUNCATE"} AppModes={"PASSIVE","RESTART","TRUNCATE"} AtomicChk=FALSE WithCrash=TRUE
 INVARIANTS C01raw Decodable NoUncommitted
 VIEW view
